@@ -46,7 +46,9 @@ EXC_SUFFIXES = ('Exception', 'Error', 'Warning')
 class FC:
     """Function context: locals with their annotations / defining values."""
 
-    def __init__(self, mod: Module, fn: FuncNode, qual: str, cls: T.Optional[ast.ClassDef], parent: T.Optional['FC'] = None):
+    def __init__(self, mod: Module, fn: FuncNode, qual: str, cls: T.Optional[ast.ClassDef], parent: T.Optional['FC'] = None,
+                 nodes: T.Optional[T.List[ast.AST]] = None):
+        self.nodes = nodes
         self.mod = mod
         self.fn = fn
         self.qual = qual
@@ -58,6 +60,7 @@ class FC:
         self.aug: T.Dict[str, T.List[ast.AugAssign]] = {}
         self.opaque: T.Set[str] = set()       # bound by for / with / except / unpacking
         self.loads: T.Dict[str, T.List[ast.Name]] = {}
+        self.nested: T.Dict[str, FuncNode] = {}
         a = fn.args
         for p in a.posonlyargs + a.args + a.kwonlyargs:
             self.params[p.arg] = p.annotation
@@ -68,7 +71,10 @@ class FC:
             self.params[a.kwarg.arg] = None
             self.opaque.add(a.kwarg.arg)
         for n in self._own_nodes():
-            if isinstance(n, ast.AnnAssign) and isinstance(n.target, ast.Name):
+            if isinstance(n, (ast.FunctionDef, ast.AsyncFunctionDef)):
+                self.nested.setdefault(n.name, n)
+                self.opaque.add(n.name)
+            elif isinstance(n, ast.AnnAssign) and isinstance(n.target, ast.Name):
                 self.anns.setdefault(n.target.id, n.annotation)
                 if n.value is not None:
                     self.values.setdefault(n.target.id, []).append(n.value)
@@ -95,9 +101,15 @@ class FC:
             elif isinstance(n, ast.Name) and isinstance(n.ctx, ast.Load):
                 self.loads.setdefault(n.id, []).append(n)
 
-    def _own_nodes(self) -> T.Iterator[ast.AST]:
+    def _own_nodes(self) -> T.Iterable[ast.AST]:
+        if self.nodes is not None:
+            return self.nodes
+        return list(self._walk_own())
+
+    def _walk_own(self) -> T.Iterator[ast.AST]:
         for st in self.fn.body:
             if isinstance(st, (ast.FunctionDef, ast.AsyncFunctionDef, ast.ClassDef)):
+                yield st
                 continue
             yield from walk_no_nested(st)
 
@@ -139,6 +151,7 @@ class Analyzer:
         self._param_memo: T.Dict[T.Tuple[int, str], T.Tuple[str, str]] = {}
         self._busy_local: T.Set[T.Tuple[int, str]] = set()
         self._busy_name: T.Set[T.Tuple[int, str]] = set()
+        self._ret_memo: T.Dict[int, T.Optional[Ty]] = {}
         self._busy_cls: T.Set[T.Tuple[int, int]] = set()
         self._cls_memo: T.Dict[T.Tuple[int, int], T.Any] = {}
         self.sorted_sites: T.List[T.Tuple[Module, str, ast.Call, Ty]] = []
@@ -153,7 +166,7 @@ class Analyzer:
                 qual = self._qual_of(mod, fn)
             if cls is None and parent is None:
                 cls = self._class_of_fn(mod, qual)
-            fc = FC(mod, fn, qual, cls if cls is not None else (parent.cls if parent else None), parent)
+            fc = FC(mod, fn, qual, cls if cls is not None else (parent.cls if parent else None), parent, self.res.own_nodes(mod, fn))
             self._fcs[id(fn)] = fc
         return fc
 
@@ -313,7 +326,7 @@ class Analyzer:
             if n:
                 if n in ('copy.deepcopy', 'copy.copy', 'deepcopy') and e.args:
                     return self.class_of(e.args[0], fc, depth + 1)
-                r = self.repo.resolve_class(fc.mod, n)
+                r = self.res.resolve_cls(fc.mod, n)
                 if r is not None:
                     return r
             fns = self.callees(e, fc)
@@ -328,17 +341,12 @@ class Analyzer:
                     return self.res.class_by_ann(t.ann, t.mod)
                 # self.x = ClassName(...)
                 for m, c in self.repo.mro(base[0], base[1]):
-                    for st in c.body:
-                        if isinstance(st, (ast.FunctionDef, ast.AsyncFunctionDef)):
-                            for n in walk_no_nested(st):
-                                if isinstance(n, ast.Assign) and isinstance(n.value, ast.Call):
-                                    for tg in n.targets:
-                                        if isinstance(tg, ast.Attribute) and tg.attr == e.attr and attr_chain(tg.value) == 'self':
-                                            cn = attr_chain(n.value.func)
-                                            if cn:
-                                                r = self.repo.resolve_class(m, cn)
-                                                if r is not None:
-                                                    return r
+                    self.res.attr_table(m, c)
+                    cn = self.res.ctor_calls.get(id(c), {}).get(e.attr)
+                    if cn:
+                        r = self.res.resolve_cls(m, cn)
+                        if r is not None:
+                            return r
             return None
         return None
 
@@ -394,7 +402,7 @@ class Analyzer:
                 args = sub_args(recv.ann)
                 if len(args) == 2 and f.attr in ('get', 'pop', 'setdefault'):
                     t = res.ann_ty(args[1], recv.mod, f'value of {short(f.value, 40)}: {norm(recv.ann)}')
-                    if f.attr == 'get' and len(e.args) == 2 and t.kind == 'set':
+                    if f.attr == 'get' and len(e.args) == 2 and t.kind == 'set' and not (isinstance(e.args[1], ast.Constant) and e.args[1].value is None):
                         d = self.ty(e.args[1], fc, depth + 1)
                         if d.kind != 'set':
                             return Ty('ambiguous', None, fc.mod, t.why)
@@ -409,9 +417,31 @@ class Analyzer:
                     tys.append(UNKNOWN)
                 else:
                     q = f'{c.name}.{fn.name}' if c is not None else fn.name
-                    tys.append(res.ann_ty(fn.returns, m, f'{q}() annotated -> {norm(fn.returns)}'))
+                    t = res.ann_ty(fn.returns, m, f'{q}() annotated -> {norm(fn.returns)}')
+                    if t.kind == 'set':
+                        t = self._refine_return(t, m, c, fn)
+                    tys.append(t)
             return self._join(tys, fc)
         return UNKNOWN
+
+    def _refine_return(self, t: Ty, mod: Module, cls: T.Optional[ast.ClassDef], fn: FuncNode) -> Ty:
+        """A function annotated to return a set: look at what it really returns (an OrderedSet is an AbstractSet too)."""
+        key = id(fn)
+        if key in self._ret_memo:
+            return self._ret_memo[key] or t
+        self._ret_memo[key] = None
+        fc2 = self.fc_for(mod, fn, cls=cls)
+        kinds = []
+        for n in fc2._own_nodes():
+            if isinstance(n, ast.Return) and n.value is not None:
+                kinds.append(self.ty(n.value, fc2).kind)
+        out = t
+        if kinds and all(k == 'ordered' for k in kinds):
+            out = Ty('ordered', None, mod, f'{fn.name}() is annotated {norm(fn.returns)} but returns an insertion-ordered container')
+        elif 'set' not in kinds and base_name(fn.returns) in ('AbstractSet', 'MutableSet') and kinds:
+            out = Ty('ambiguous', t.ann, t.mod, t.why + ' (abstract set type; returned values are not proven to be builtin sets)')
+        self._ret_memo[key] = out
+        return out
 
     # ------------------------------------------------------------------ callees
     def callees(self, call: ast.Call, fc: FC) -> T.List[T.Tuple[Module, T.Optional[ast.ClassDef], FuncNode]]:
@@ -421,9 +451,8 @@ class Analyzer:
             # nested function of an enclosing context
             c: T.Optional[FC] = fc
             while c is not None:
-                for st in ast.walk(c.fn):
-                    if isinstance(st, (ast.FunctionDef, ast.AsyncFunctionDef)) and st.name == f.id and st is not c.fn:
-                        return [(c.mod, None, st)]
+                if f.id in c.nested:
+                    return [(c.mod, None, c.nested[f.id])]
                 c = c.parent
             if fc.owner(f.id) is not None:
                 return []
@@ -441,7 +470,7 @@ class Analyzer:
                 if r is not None and r[0].has_func(r[1]):
                     return [(r[0], None, r[0].func(r[1]))]
                 return []
-            rc = self.repo.resolve_class(fc.mod, v.id)
+            rc = self.res.resolve_cls(fc.mod, v.id)
             if rc is not None:
                 fm = self.repo.find_method(rc[0], rc[1], f.attr)
                 return [fm] if fm is not None else []
